@@ -39,6 +39,8 @@ type faultCase struct {
 	Prefix  int    `json:"prefix"`
 	PreCuts []int  `json:"pre_cuts"`
 	Fault   string `json:"fault"`
+	// Prior: kind of an earlier request call on the same client ("" none): success | stall | partial-stall | eof | ioerr
+	Prior string `json:"prior,omitempty"`
 }
 
 type prep struct {
@@ -119,6 +121,10 @@ func prepare(c faultCase) (prep, error) {
 		sc.NilRequest = true
 	}
 	sc.Stream, sc.Events = stream, ev
+	sc.Prior = c.Prior
+	if (c.Prior == "stall" || c.Prior == "partial-stall") && sc.ReadTimeoutMs > 100 {
+		sc.Prior = "eof" // keep the earlier call short when this case needs a long client timeout
+	}
 	p.sc = sc
 	if p.faultIdx >= 0 {
 		E, known := cli.LibExpected(f, c.Req, len(normal))
@@ -138,6 +144,9 @@ func prepare(c faultCase) (prep, error) {
 
 func judge(c faultCase, p prep, o cli.Outcome) harness.Result {
 	labels := []string{"kind:" + c.Kind, "fault:" + c.Fault, fmt.Sprintf("fc%d", c.Req.FC)}
+	if c.Prior != "" {
+		labels = append(labels, "prior:"+c.Prior)
+	}
 	if c.ExcCode != 0 {
 		labels = append(labels, "exception-reply")
 	}
@@ -148,8 +157,11 @@ func judge(c faultCase, p prep, o cli.Outcome) harness.Result {
 	if o.Panic != nil {
 		return harness.Fail("request call panicked: %v", o.Panic)
 	}
+	if o.PriorHung {
+		return harness.Fail("an earlier request call (%s) on the same client did not return within %v", c.Prior, cli.HangCeiling)
+	}
 	if o.Hung {
-		return harness.Fail("request call did not return within %v (fault %s after %d reply bytes)", cli.HangCeiling, c.Fault, c.Prefix)
+		return harness.Fail("request call did not return within %v (fault %s after %d reply bytes, earlier call on this client: %q)", cli.HangCeiling, c.Fault, c.Prefix, c.Prior)
 	}
 	desc := fmt.Sprintf("fault %q after %d of %d reply bytes (%s fc%d): ", c.Fault, c.Prefix, len(p.reply), c.Kind, c.Req.FC)
 	if p.affected {
@@ -274,6 +286,9 @@ func genFault(t *rapid.T, kinds []string) faultCase {
 		if c.Prefix < 0 || c.Prefix > L-1 {
 			c.Prefix = L - 1
 		}
+	}
+	if c.Fault != "not-connected" && c.Fault != "nil-request" && rapid.IntRange(0, 2).Draw(t, "with_prior") == 0 {
+		c.Prior = rapid.SampledFrom([]string{"success", "stall", "partial-stall", "eof", "ioerr"}).Draw(t, "prior")
 	}
 	if c.Prefix > 1 {
 		k := rapid.IntRange(0, 3).Draw(t, "ncuts")
